@@ -185,6 +185,42 @@ def safe_one(rec, conv, direction, t, cls):
             rec.violation(f"rgb_to_oklch_safe({t}) = {got!r} is not a valid OKLCH triple (L in [0,1], C>=0, H in [0,360])", case)
 
 
+def aliases_after_invalid(rec, conv, rnd, n):
+    """History: the safe variants are first given a just-out-of-range triple, then the valid triples it could be confused
+    with (clamped, wrapped modulo 256, carried into the neighbouring channel); on those the safe variant must still equal
+    the plain one ('equal the plain ones on valid input' holds after any earlier call)."""
+    f, inv, fs, invs = conv
+    if fs is None:
+        return
+    for _ in range(n):
+        c = [rnd.randrange(256) for _ in range(3)]
+        j = rnd.randrange(3)
+        c[j] = rnd.choice([256, 257, -1, -2, 255 + rnd.randrange(1, 4), -rnd.randrange(1, 4)])
+        t = tuple(c)
+        try:
+            fs(t)
+        except Exception:
+            pass   # judged by safe_one
+        cands = {tuple(min(255, max(0, v)) for v in t), tuple(v % 256 for v in t)}
+        for base in (256, 255):
+            nkey = (t[0] * base + t[1]) * base + t[2]
+            if nkey >= 0:
+                cands.add(((nkey // (base * base)) % 256, (nkey // base) % base % 256, nkey % base % 256))
+        for v in cands:
+            rec.ev()
+            rec.count("alias_after_invalid_checked")
+            try:
+                a, b = fs(v), f(v)
+            except Exception as e:
+                rec.violation(f"rgb_to_oklch_safe({v}) raised {type(e).__name__} after an invalid call", {"fn": "alias", "invalid": list(t), "valid": list(v)})
+                continue
+            if a != b:
+                rec.violation(f"after rgb_to_oklch_safe({t}) (invalid), rgb_to_oklch_safe({v}) = {a} but the plain conversion gives {b}",
+                              {"fn": "alias", "invalid": list(t), "valid": list(v)})
+            if invs is not None and invs(b) != inv(b):
+                rec.violation(f"after an invalid call, oklch_to_rgb_safe({b}) = {invs(b)} != plain {inv(b)}", {"fn": "alias", "invalid": list(t), "valid": list(v)})
+
+
 def work(shard, rec):
     from cmv.lib import Lib
     lib = Lib()
@@ -259,6 +295,7 @@ def work(shard, rec):
             safe_one(rec, conv, direction, t, cls)
             rec.ev()
             rec.nontrivial((direction, repr(t)))
+        aliases_after_invalid(rec, conv, rnd, shard["n"] // 4)
     elif k == "side":
         side(shard, rec, lib, cv, conv)
 
@@ -311,6 +348,15 @@ def replay(case):
     cv = lib.mod("conversions")
     conv = tuple(getattr(cv, n, None) for n in ("rgb_to_oklch", "oklch_to_rgb", "rgb_to_oklch_safe", "oklch_to_rgb_safe"))
     rec = Rec()
+    if case["fn"] == "alias":
+        t, v = tuple(case["invalid"]), tuple(case["valid"])
+        try:
+            conv[2](t)
+        except Exception:
+            pass
+        a, b = conv[2](v), conv[0](v)
+        print(f"after rgb_to_oklch_safe({t}): safe({v}) = {a}, plain = {b}")
+        return a == b
     if case["fn"] == "fwd":
         fwd_one(rec, conv, tuple(case["c"]))
     elif case["fn"] == "inv":
